@@ -9,7 +9,7 @@
    Not covered by a theorem: fixed (non-expanding) message bitmaps and track fields; these are tied to the library by
    correspondence and exercised by the property oracle. *)
 From Iso Require Import Model.Base Model.Padding Model.Encoding Model.Prefix Model.Bitmap Model.Spec Model.Field Model.Message
-     Proofs.BaseLemmas Proofs.PrefixProofs Proofs.FieldProofs Proofs.CompositeProofs Proofs.MessageRoundtrip.
+     Proofs.BaseLemmas Proofs.PrefixProofs Proofs.FieldProofs Proofs.CompositeProofs Proofs.MessageRoundtrip Proofs.CoherenceCheck Gen.ShippedSpecs.
 
 Theorem C01_prim_roundtrip : forall p st b, coherent_pspec p -> prim_in_domain p st -> prim_pack p st = Ok b ->
   forall st0 rest, prim_unpack p st0 (b ++ rest) = (st, UOk (zlen b)).
@@ -49,6 +49,19 @@ Theorem C01_message_repack : forall S m m' b, msg_coherent S -> msg_in_dom S m -
   forall m0 rest, msg_shaped S m0 -> snd (m_pack S (fst (m_unpack S m0 (b ++ rest)))) = Ok b.
 Proof. exact message_repack. Qed.
 Print Assumptions C01_message_repack.
+
+(* the shipped specifications (iso8583.Spec87, specs.Spec87ASCII, specs.Spec87Hex, examples.Spec, the EMV composite as
+   data element 55), regenerated from the library's spec objects on every run (Gen/ShippedSpecs.v), are coherent: the
+   two theorems above apply to every in-domain message of each of them. coherentb is a decision procedure proved
+   sound (Proofs/CoherenceCheck.v); the evaluation is over the finite list of shipped specifications. *)
+Theorem C01_shipped_specs_coherent : forall name t, In (name, t) shipped_specs -> exists MS, spec_of_string t = Some MS /\ msg_coherent MS.
+Proof.
+  assert (H : forallb (fun nt : String.string * String.string => match spec_of_string (snd nt) with Some MS => msg_coherentb MS | None => false end) shipped_specs = true)
+    by (vm_compute; reflexivity).
+  intros name t Hi. rewrite forallb_forall in H. specialize (H (name, t) Hi). cbn [snd] in H.
+  destruct (spec_of_string t) as [MS|]; [|discriminate]. exists MS. split; [reflexivity|apply msg_coherentb_sound; exact H].
+Qed.
+Print Assumptions C01_shipped_specs_coherent.
 
 (* non-vacuity, and instances of the composite / message level by computation *)
 Definition p_ex : pspec := {| ps_kind := KString; ps_enc := EncBCD; ps_pref := PVar PfBinary 5; ps_len := 300; ps_pad := PadNone; ps_packer := PkDefault |}.
